@@ -473,15 +473,28 @@ struct Kern {
                         if (!a || !inv || !sq)
                                 return false;
                         int ir = 0;
+                        bool singular = false;
                         if (GUARDED(gc, {
                                     if (sub & 32)
                                             gf_gen_cauchy1_matrix(a->data, m, k);
                                     else
                                             gf_gen_rs_matrix(a->data, m, k);
                                     memcpy(sq->data, a->data + (size_t) (m - k) * k, (size_t) k * k);
+                                    // a third of the time a SINGULAR matrix (an undecodable erasure pattern): some row made equal to, or
+                                    // the sum of, other rows - the rank defect can then show up at any pivot, the last one included
+                                    singular = (seed % 3) == 0 && k >= 2;
+                                    if (singular) {
+                                            int victim = (seed & 8) ? k - 1 : (int) ((seed >> 4) % k), other = (victim + 1 + (int) ((seed >> 8) % (k - 1))) % k;
+                                            for (int c = 0; c < k; c++)
+                                                    sq->data[(size_t) victim * k + c] = (seed & 16) && k >= 3 ? (uint8_t) (sq->data[(size_t) other * k + c] ^ sq->data[(size_t) ((other + 1) % k == victim ? (other + 2) % k : (other + 1) % k) * k + c]) : sq->data[(size_t) other * k + c];
+                                    }
                                     ir = gf_invert_matrix(sq->data, inv->data, k);
                             }))
                                 return fault("gf_gen_*_matrix / gf_invert_matrix");
+                        if (singular && ir == 0) {
+                                rr.fail("C16.kernel_disagrees_with_base", strf("gf_invert_matrix reports success for a singular %dx%d matrix", k, k));
+                                return false;
+                        }
                         h.rec("gf_matrix", { k, m, ir, (int64_t) hash_bytes(a->data, (size_t) m * k), (int64_t) (ir == 0 ? hash_bytes(inv->data, (size_t) k * k) : 0) });
                         h.sigmix(0x3a7 ^ (uint64_t) k << 8 ^ (uint64_t) m);
                         if (!g_arena.canary_ok(a) || !g_arena.canary_ok(inv) || !g_arena.canary_ok(sq)) {
